@@ -755,6 +755,10 @@ def run(ctx):
         ("x86", "ibench", ["vaddpd-x_x_x-TP: 0.5 (clock cycles)\n", "vaddpd-x_x_x-LT: 3.0 (clock cycles)\n"]),   # D11
         ("x86", "ibench", ["mov-r_mboi-TP: 0.5 (c)\n", "vfmadd213pd-mbis_y_y-TP: 0.5 (c)\n", "vfmadd213pd-mbis_y_y-LT: 5.0 (c)\n"]),
         ("a64", "ibench", ["fadd-vd_vd_v-TP: 0.5 (c)\n", "ldp-d_d_mo-LT: 4.0 (c)\n", "fmov-s_i-TP: 0.26 (c)\n", "fmov-s_i-LT: 2.5 (c)\n"]),
+        # two imported forms of one NEW lower-case mnemonic with equal operand counts: both must be emitted
+        ("x86", "ibench", ["qqfma-x_x_x-TP: 0.5 (c)\n", "qqfma-x_x_x-LT: 4.0 (c)\n", "qqfma-y_y_y-TP: 1.0 (c)\n", "qqfma-y_y_y-LT: 4.0 (c)\n"]),
+        ("x86", "asmbench", ["qqadd-x_x\n", "Latency: 3.0 cy\n", "Throughput: 0.5 cy\n", "\n",
+                             "qqadd-y_y\n", "Latency: 3.0 cy\n", "Throughput: 1.0 cy\n", "\n"]),
     ]
     for j, (isa, kind, lines) in enumerate(corpus):
         path = os.path.join(ctx.env.work, "corpus-%d.dat" % j)
